@@ -99,6 +99,23 @@ static inline _Bool c_types_ok(int abi) {
   }
   return 1;
 }
+/* witness class of known finding KF-C06-1 (known_findings.txt): System V x86-64 signatures in which a vector argument (16/32/64
+ * bytes) is passed on the stack, i.e. is preceded by >= 8 float/vector arguments. With -DVERIF_EXCL_SYSV_VEC_STACK the check is
+ * repeated on the complement of this class, so any other deviation is still reported. */
+static inline _Bool c_in_known_class_sysv_vec_stack(void) {
+  unsigned nvec = 0;
+  for (unsigned i = 0; i < VERIF_MAXARGS; i++) {
+    if (i >= g_nargs) break;
+    int c = spec_type_class(g_types[i]);
+    if (c == SPEC_T_F32 || c == SPEC_T_F64 || c == SPEC_T_VEC) { if (nvec >= 8 && c == SPEC_T_VEC) return 1; nvec++; }
+  }
+  return 0;
+}
+#ifdef VERIF_EXCL_SYSV_VEC_STACK
+#define C06_EXCLUDE_KNOWN (VERIF_ABI != SPEC_ABI_SYSV64 || !c_in_known_class_sysv_vec_stack())
+#else
+#define C06_EXCLUDE_KNOWN 1
+#endif
 /* FuncDetail as FuncDetail::init() hands it to the backend: calling convention initialised, argument/return types filled in */
 static inline _Bool c_detail_prepared(const struct FuncDetail* d, int abi) {
   if (c_cc_code(&d->_call_conv, abi) != 0) return 0;
@@ -145,15 +162,15 @@ static inline int c_arg_ok(const struct FuncDetail* self, int abi) {
 }
 #define FD_CONTRACT(EXTRA) \
   __CPROVER_requires(__CPROVER_is_fresh(func, sizeof(*func))) \
-  __CPROVER_requires(__CPROVER_is_fresh(signature, sizeof(*signature))) \
-  __CPROVER_requires(c_types_ok(VERIF_ABI) && c_detail_prepared(func, VERIF_ABI) && (unsigned)signature->_va_index == 255) \
+  __CPROVER_requires(c_types_ok(VERIF_ABI) && c_detail_prepared(func, VERIF_ABI) && C06_EXCLUDE_KNOWN) \
   EXTRA \
   __CPROVER_assigns(*func) \
   __CPROVER_ensures(__CPROVER_return_value == 0) \
   __CPROVER_ensures(func->_arg_count == g_nargs) \
   /* D1 the witness argument sits exactly where the ABI puts it, and the stack area has the ABI's size */ \
   __CPROVER_ensures(c_arg_ok(func, VERIF_ABI) == 0)
-#define CONTRACT_x86_FuncInternal_init_func_detail FD_CONTRACT(__CPROVER_requires(register_size == 8))
-#define CONTRACT_a64_FuncInternal_init_func_detail FD_CONTRACT()
+#define CONTRACT_x86_FuncInternal_init_func_detail FD_CONTRACT(__CPROVER_requires(register_size == 8) \
+  __CPROVER_requires(__CPROVER_is_fresh(signature, sizeof(*signature)) && (unsigned)signature->_va_index == 255))
+#define CONTRACT_a64_FuncInternal_init_func_detail FD_CONTRACT(/* the signature is not read by the AArch64 backend */)
 #endif
 #endif
